@@ -65,3 +65,32 @@ Lemma tp_ops_are_duration_ops a b c1 c2 :
   tp_plus_m a b c1 c2 = plus_m a b c1 c2 /\ tp_plus_r_m b a c2 c1 = plus_m a b c1 c2
   /\ tp_minus_m a b c1 c2 = minus_m a b c1 c2 /\ tp_diff_m a b c1 c2 = minus_m a b c1 c2.
 Proof. repeat split. Qed.
+
+(** * member operators: one checked machine operation on the stored count each *)
+Lemma member_ops_spec w c x : rep_ok w = true -> fits w c = true -> fits w x = true ->
+  (fits w (- c) = true -> neg_m w c = Val (- c))
+  /\ uplus_m w c = Val c
+  /\ (fits w (c + 1) = true -> inc_m w c = Val (c + 1) /\ tp_inc_m w c = Val (c + 1))
+  /\ (fits w (c - 1) = true -> dec_m w c = Val (c - 1) /\ tp_dec_m w c = Val (c - 1))
+  /\ (fits w (c + x) = true -> add_assign_m w c x = Val (c + x) /\ tp_add_assign_m w c x = Val (c + x))
+  /\ (fits w (c - x) = true -> sub_assign_m w c x = Val (c - x) /\ tp_sub_assign_m w c x = Val (c - x))
+  /\ (fits w (c * x) = true -> mul_assign_m w c x = Val (c * x))
+  /\ (x <> 0 -> fits w (Z.quot c x) = true ->
+        div_assign_m w c x = Val (Z.quot c x) /\ mod_assign_m w c x = Val (Z.rem c x)).
+Proof.
+  intros Hw Hc Hx.
+  assert (K : forall v, fits w v = true -> ck_rep w v = Val v) by (intros v H; rewrite fits_in_rep in H; apply ck_rep_ok; exact H).
+  unfold neg_m, uplus_m, inc_m, tp_inc_m, dec_m, tp_dec_m, add_assign_m, tp_add_assign_m, sub_assign_m,
+    tp_sub_assign_m, mul_assign_m, div_assign_m, mod_assign_m, inc_m, dec_m, add_assign_m, sub_assign_m.
+  split; [exact (K _)|]. split; [reflexivity|].
+  split; [intros H; split; exact (K _ H)|]. split; [intros H; split; exact (K _ H)|].
+  split; [intros H; split; exact (K _ H)|]. split; [intros H; split; exact (K _ H)|].
+  split; [exact (K _)|].
+  intros Hnz H. rewrite fits_in_rep in H. unfold div_rep, rem_rep.
+  destruct (x =? 0) eqn:E0; [lia|].
+  destruct ((c =? min_rep w) && (x =? -1)) eqn:Em.
+  - exfalso. apply Bool.andb_true_iff in Em. destruct Em as [E1 E2]. apply Z.eqb_eq in E1, E2.
+    rewrite E1, E2 in H. rewrite (min_over_neg1 w Hw) in H. discriminate.
+  - split; [|reflexivity].
+    destruct (x =? 1) eqn:E1; [|reflexivity]. apply Z.eqb_eq in E1. rewrite E1, Z.quot_1_r. reflexivity.
+Qed.
